@@ -474,6 +474,92 @@ fn cli_pass(rep: &Report, n: usize, seed: u64) {
     rep.count("CLI programs with print statements", n as u64);
 }
 
+/// accepted programs far beyond ordinary size: deep recursion, tens of thousands of instructions / data lines / labels /
+/// procedures, hundreds of macro parameters -- everything the assembler accepted must still be accepted by the data
+/// loader and by the interpreter when the program runs (no 'Internal Error' path, no abort, the program reaches its end)
+fn scale_programs(rep: &Report) {
+    let mut progs: Vec<(&str, String)> = Vec::new();
+    for d in [33_000usize, 40_000] {
+        progs.push(("deep-recursion", format!("def down {{\ninc bx\ndec cx\njcxz bottom\ncall down\nbottom:\ninc dx\n}}\nstart:\nmov cx, {}\ncall down\nmov si, 7\n", d)));
+    }
+    progs.push(("many-instructions", format!("start:\n{}mov si, 7\n", "inc ax\n".repeat(66_000))));
+    {
+        let mut t = String::new();
+        for s in 0..280 {
+            t.push_str(&format!("set {}\n", 0x100 + s * 0x10));
+            for k in 0..250 {
+                t.push_str(&format!("db {}\n", (s + k) % 256));
+            }
+        }
+        t.push_str("start:\nmov si, 7\nprint mem 4096 -> 4111\n");
+        progs.push(("many-data-lines", t));
+    }
+    {
+        let mut t = String::from("start:\n");
+        for k in 0..3000 {
+            t.push_str(&format!("jmp l{}\nmov bx, 1\nl{}:\n", k, k));
+        }
+        t.push_str("mov si, 7\n");
+        progs.push(("many-labels", t));
+    }
+    {
+        let mut t = String::new();
+        for k in 0..400 {
+            t.push_str(&format!("def p{} {{ inc ax }}\n", k));
+        }
+        t.push_str("start:\n");
+        for k in 0..400 {
+            t.push_str(&format!("call p{}\n", k));
+        }
+        t.push_str("mov si, 7\n");
+        progs.push(("many-procedures", t));
+    }
+    {
+        let params: Vec<String> = (0..300).map(|k| format!("pz{}", k)).collect();
+        let args: Vec<String> = (0..300).map(|k| format!("{}", k)).collect();
+        progs.push(("many-macro-parameters", format!("macro wide({}) -> mov ax,pz0 mov bx,pz299 mov cx,pz256 <-\nstart:\nwide({})\nmov si, 7\n", params.join(","), args.join(","))));
+    }
+    let n = progs.len();
+    par_for(n, 1, |i| {
+        let (family, text) = &progs[i];
+        let out = run_cli(text.as_bytes(), &CliOpts { env: vec![("VERIF_NOMEM", "1")], cap: 96 << 20, timeout_s: 120.0, ..Default::default() });
+        rep.eval(1);
+        rep.distinct_str(&format!("scale|{}|{}", family, i));
+        if out.timed_out || out.flooded {
+            rep.inconclusive("cli watchdog / output cap");
+            return;
+        }
+        let parsed = parse_records(&out.stdout);
+        let plain = String::from_utf8_lossy(&parsed.plain).to_string();
+        if parsed.recs.is_empty() {
+            // refused: not an accepted program (whether it should have been accepted is C11/C14's subject)
+            rep.count("large programs refused by the assembler (not judged here)", 1);
+            return;
+        }
+        rep.count("large accepted programs that were executed", 1);
+        let ended = parsed.recs.last().map(|r| r.line == "hlt" && r.regs[crate::ref8086::SI] == 7).unwrap_or(false);
+        let sym = if plain.contains("Internal Error") {
+            Some("internal-error")
+        } else if !out.clean_exit() {
+            Some("abort")
+        } else if !ended {
+            Some("does-not-reach-its-end")
+        } else {
+            None
+        };
+        if let Some(sym) = sym {
+            rep.fail(Failure {
+                sig: format!("cli:scale:{}:{}", family, sym),
+                what: format!("C10 CLI: a large accepted program ({}) is not executed to its end ({})", family, sym),
+                witness: format!("{{\"kind\": \"cli\", \"family\": \"{}\", \"source_head\": {}, \"source_bytes\": {}, \"stdout_tail\": {}, \"status\": {}}}", family, json_str(&text[..text.len().min(400)]), text.len(), json_str(&plain[plain.len().saturating_sub(400)..]), json_str(&out.status_str())),
+                core_item: Some(format!("{}|{}", i, sym)),
+            });
+        }
+    });
+    rep.count("large programs run through the binary", n as u64);
+    rep.floor("large accepted programs that were executed", rep.counter("large accepted programs that were executed"), 5);
+}
+
 /// Programs with one defect each (C14's mutants): whatever the tool chain does with them, it must either refuse them or
 /// run them without reaching an 'Internal Error' path -- an invalid program that slips through the label checks shows
 /// up here as an emitted line the interpreter cannot run.
@@ -616,6 +702,7 @@ pub fn run(rep: &Report) {
     random_programs(rep, if t { 100_000 } else { 3000 }, rep.seed);
     cli_pass(rep, if t { 4000 } else { 150 }, rep.seed);
     print_boundaries(rep);
+    scale_programs(rep);
     defective_programs(rep, if t { 600 } else { 10 }, rep.seed);
     // terminal coverage
     let terms = grammar_terminals();
